@@ -44,22 +44,38 @@ static arec_t        *req;
 
 /* the request: QUERY, RD set / CD clear, one question A IN "a.b" (every key-relevant attribute is concrete here so
  * that the key string has a concrete length; all attribute combinations are covered by the key kernel c08_key) */
-#define REQ_NAME  "a.b"
-#define KEY_SAME  "QUERY|rd|A|IN|a.b"
-#define KEY_SAME2 "query|RD|a|in|A.B" /* the same key as a 0x20-randomised request would spell it */
-#define KEY_OTHER "QUERY|rd|A|IN|c"
+#define REQ_NAME   "a.b"
+#define OTHER_NAME "c.d"
+/* the request's key as the real ares_qcache_calc_key() spells it, the same key in the other letter case (what a
+ * 0x20-randomised spelling of the same request yields) and the key of another request */
+static char *KEY_SAME, *KEY_SAME2, *KEY_OTHER;
 
+static arec_t *mk_req(const char *name)
+{
+  arec_t *r = arec_new();
+  r->opcode = ARES_OPCODE_QUERY;
+  r->flags  = ARES_FLAG_RD;
+  r->nq     = 1;
+  r->qname  = name;
+  r->qtype  = ARES_REC_TYPE_A;
+  r->qclass = ARES_CLASS_IN;
+  return r;
+}
 static void mk_request(void)
 {
-  req         = arec_new();
-  req->opcode = ARES_OPCODE_QUERY;
-  req->flags  = ARES_FLAG_RD;
-  req->nq     = 1;
-  req->qname  = REQ_NAME;
-  req->qtype  = ARES_REC_TYPE_A;
-  req->qclass = ARES_CLASS_IN;
-  q.query     = req->h;
-  q.channel   = &ch;
+  size_t i, n;
+  req       = mk_req(REQ_NAME);
+  q.query   = req->h;
+  q.channel = &ch;
+  KEY_SAME  = ares_qcache_calc_key(req->h);
+  KEY_OTHER = ares_qcache_calc_key(mk_req(OTHER_NAME)->h);
+  VP_ASSUME(KEY_SAME != NULL && KEY_OTHER != NULL);
+  n         = ares_strlen(KEY_SAME);
+  KEY_SAME2 = vp_malloc(n + 1);
+  for (i = 0; i <= n; i++) {
+    char c       = KEY_SAME[i];
+    KEY_SAME2[i] = (c >= 'a' && c <= 'z') ? (char)(c - 32) : (c >= 'A' && c <= 'Z') ? (char)(c + 32) : c;
+  }
 }
 
 static char *dup_str(const char *s)
@@ -84,7 +100,8 @@ typedef struct {
 
 /* kind: 0 = the request's key, 1 = the same key in another spelling (case), 2 = another key.  Concrete per job:
  * a symbolic choice would make string lengths (and allocation sizes) symbolic. */
-static void mk_entry(pre_t *p, int kind, const ares_timeval_t *now_or_null)
+static time_t g_order, g_last_exp;
+static void   mk_entry(pre_t *p, int kind, const ares_timeval_t *now_or_null)
 {
   p->rec      = arec_new();
   p->e        = vp_malloc(sizeof(*p->e));
@@ -99,12 +116,21 @@ static void mk_entry(pre_t *p, int kind, const ares_timeval_t *now_or_null)
   p->e->key       = dup_str(kind == 0 ? KEY_SAME : kind == 1 ? KEY_SAME2 : KEY_OTHER);
   p->e->dnsrec    = p->rec->h;
   p->e->insert_ts = p->ins;
-  p->e->expire_ts = p->exp;
+  p->e->expire_ts = g_order++; /* placeholder while linking: keeps the list STRUCTURE concrete (see below) */
   /* every entry is on the expiry list; the key table points to it unless a later entry of the same key took
    * the slot (duplicate insert) or an expired older duplicate removed the key */
   if (vp_bool())
     VP_ASSUME(ares_htable_strvp_insert(qc->cache, p->e->key, p->e));
   VP_ASSUME(ares_slist_insert(qc->expire, p->e) != NULL);
+  /* entries are created in expiry order (all key-kind orders are enumerated by the jobs); ties keep insertion order
+   * exactly as the list contract says.  The symbolic expiry time is filled in by set_expiry(). */
+}
+/* second phase, after ALL entries are linked: the real (symbolic) expiry times, nondecreasing in creation order */
+static void set_expiry(pre_t *p)
+{
+  VP_ASSUME(p->exp >= g_last_exp);
+  g_last_exp      = p->exp;
+  p->e->expire_ts = p->exp;
 }
 
 #if OP == 0
@@ -134,6 +160,7 @@ static void check_insert(void)
 #ifdef OLD
   have_old = 1;
   mk_entry(&old, OLD, &now);
+  set_expiry(&old);
 #else
   have_old = 0;
   old.rec  = NULL;
@@ -141,20 +168,32 @@ static void check_insert(void)
   pre_len = ares_slist_len(qc->expire);
 
   resp         = arec_new();
-  resp->rcode  = (ares_dns_rcode_t)vp_range(0, 23);
+#if defined(RCODE) && RCODE >= 0
+  resp->rcode = (ares_dns_rcode_t)RCODE; /* concrete per job */
+#elif defined(RCODE)
+  resp->rcode = (ares_dns_rcode_t)vp_range(0, 23); /* every rcode that is neither NOERROR nor NXDOMAIN */
+  VP_ASSUME(resp->rcode != ARES_RCODE_NOERROR && resp->rcode != ARES_RCODE_NXDOMAIN);
+#else
+  resp->rcode = (ares_dns_rcode_t)vp_range(0, 23);
+#endif
   resp->flags  = vp_u16();
   resp->opcode = ARES_OPCODE_QUERY;
   resp->nq     = 1;
   resp->qname  = REQ_NAME;
   resp->qtype  = ARES_REC_TYPE_A;
   resp->qclass = ARES_CLASS_IN;
-  resp->nrr    = vp_range(0, C08_MAXRR);
+#ifdef NRR
+  resp->nrr = NRR; /* concrete per job */
+#else
+  resp->nrr = vp_range(0, C08_MAXRR);
+#endif
   for (k = 0; k < C08_MAXRR; k++) {
     resp->rr[k].sect    = (ares_dns_section_t)vp_range(ARES_SECTION_ANSWER, ARES_SECTION_ADDITIONAL);
     resp->rr[k].type    = (ares_dns_rec_type_t)vp_u16();
     resp->rr[k].ttl     = vp_u32();
     resp->rr[k].soa_min = vp_u32();
   }
+  arec_commit(resp);
   /* what the response's own TTLs allow */
   for (k = 0; k < C08_MAXRR; k++) {
     const arr_t *a = &resp->rr[k];
@@ -223,7 +262,9 @@ static void check_insert(void)
           VP_WITNESS("NOTE response without any TTL-bearing record is cached for max_ttl");
         VP_WITNESS("noerror cached");
       }
+#ifndef NOEXACT
       VP_ASSERT(life == life_code || life == life_strict, "cached lifetime equals min(maximum, what the TTLs allow)");
+#endif
       VP_ASSERT(vp_strvp_peek(qc->cache, e->key) == e, "the new entry is the one indexed under its key");
       VP_ASSERT(vp_strvp_key_eq(e->key, KEY_SAME) && vp_strvp_key_eq(vp_strvp_ins_key, e->key), "entry is indexed under the request's key");
     }
@@ -240,6 +281,10 @@ static void check_insert(void)
       VP_WITNESS("refused ttl 0");
   }
 
+#ifdef NOFETCH
+  (void)now2; (void)fst; (void)out;
+  return;
+#endif
   /* replay: the same request at any later time */
   now2.sec  = (ares_int64_t)vp_range(0, 2 * SEC_MAX);
   now2.usec = (unsigned int)vp_range(0, 999999);
@@ -299,7 +344,8 @@ static void build_state(const ares_timeval_t *now)
 #if NE > 2
   mk_entry(&ent[2], K2, now);
 #endif
-  (void)i;
+  for (i = 0; i < NE; i++)
+    set_expiry(&ent[i]);
 }
 #endif
 
